@@ -1213,7 +1213,8 @@ def gen(rng, tier):
                 yield hist(dt, vals, tr, [f"set:{i}:{_vstr(rvalue(dt, rng))}", "list"])
                 yield hist(dt, vals, tr, [f"del:{i}"])
                 yield hist(dt, vals, tr, [f"pop:{i}", "len"])
-                yield hist(dt, vals, tr, [f"ins:{i}:{_vstr(rvalue(dt, rng))}"])
+                if not (dt.rt == "float" and i < 0 and tr):        # (a split float item may be a NaN with a payload)
+                    yield hist(dt, vals, tr, [f"ins:{i}:{_vstr(rvalue(dt, rng))}"])
             yield hist(dt, vals, tr, ["pop", "pop", "pop"])
             yield hist(dt, vals, tr, ["rev", "rev"])
             bounds = [None] + list(range(-(n + 2), n + 3))
@@ -1430,7 +1431,7 @@ def gen(rng, tier):
         vals = rvals(dt, rng, 4)
         yield hist(dt, vals, None, [f"cnt:{_vstr(vals[0])}"])
         yield hist(dt, vals, rtrail(dt, rng, 1.0), [f"cnt:{_vstr(rvalue(dt, rng))}"])
-    for tok in ["u8", "i5", "hex4", "float16", ">H"]:
+    for tok in ["u8", "i5", "hex4", "u3", ">H"]:
         dt = D(tok)
         for n in (0, 1, 2, 3):
             vals = rvals(dt, rng, n)
